@@ -398,6 +398,30 @@ func main() {
 		lines = append(lines, "VACUOUS: zero obligations generated")
 		exit = 2
 	}
+	var bounded []*boundedResult
+	if boundedReopenProps[*prop] && *only == "" {
+		if br := runBoundedReopen(*repo, *verif, *tier); br != nil {
+			bounded = append(bounded, br)
+			switch {
+			case br.Failures > 0:
+				os.MkdirAll(outDir, 0o755)
+				rp := filepath.Join(outDir, "bounded_reopen.replay.json")
+				data, _ := json.MarshalIndent(map[string]interface{}{"property": *prop, "check": br.Name, "bound": br.Bound, "sequences": br.Sequences, "failures": br.Failures,
+					"failing_input": br.First, "output": lastLines(br.Output, 40), "how_to_rerun": "ZZ_BOUND/ZZ_EXTRA + go test -tags debug -overlay (bounded/reopen_harness.go.txt as replica/zz_bounded_test.go) -run TestZZBoundedReopen ./replica"}, "", " ")
+				os.WriteFile(rp, data, 0o644)
+				lines = append(lines, fmt.Sprintf("VIOLATION property=%s replay=%s bounded-check=reopen-equivalence failing-sequence=%s", *prop, rp, br.First))
+				violations++
+				exit = 1
+			case br.Failures < 0:
+				lines = append(lines, "NOT-CHECKED bounded reopen harness: "+br.First)
+				if exit == 0 {
+					exit = 2
+				}
+			default:
+				lines = append(lines, fmt.Sprintf("BOUNDED %s: %d sequences (%s), 0 failures [not a proof; not counted in discharged]", br.Name, br.Sequences, br.Bound))
+			}
+		}
+	}
 	for _, l := range lines {
 		fmt.Println(l)
 	}
@@ -406,7 +430,7 @@ func main() {
 		*prop, *tier, len(keys), nObl, nDis, nKnown, nCov, nCan, loadS, genS, solveS, wall, exit)
 
 	if !*noEvidence && *prop != "all" {
-		writeEvidence(*verif, *prop, *tier, e, keys, reports, obls, nObl, nDis, nCov, nCan, nKnown, bySolver, float64(solverMs)/1000, wall, violations, lines)
+		writeEvidence(*verif, *prop, *tier, e, keys, reports, obls, nObl, nDis, nCov, nCan, nKnown, bySolver, float64(solverMs)/1000, wall, violations, lines, bounded)
 	}
 	if exit == 0 && !*keep {
 		os.RemoveAll(outDir)
@@ -654,7 +678,7 @@ func pruneOut(dir string, keep int) {
 // contradictory assumptions at that site; listed in the evidence.
 var vacSites []string
 
-func writeEvidence(verif, prop, tier string, e *Engine, keys []string, reports []funcReport, obls []*Obligation, nObl, nDis, nCov, nCan, nKnown int, bySolver map[string]int, solverS, wall float64, violations int, lines []string) {
+func writeEvidence(verif, prop, tier string, e *Engine, keys []string, reports []funcReport, obls []*Obligation, nObl, nDis, nCov, nCan, nKnown int, bySolver map[string]int, solverS, wall float64, violations int, lines []string, bounded []*boundedResult) {
 	var fns []string
 	for _, k := range keys {
 		fns = append(fns, shortKey(k))
@@ -762,6 +786,7 @@ func writeEvidence(verif, prop, tier string, e *Engine, keys []string, reports [
 			"solver_time_s":            solverS,
 			"samples":                  samples,
 			"slowest":                  slowest,
+			"bounded":                  bounded,
 			"not_checked":              notChecked,
 			"report_lines":             lines,
 			"vacuous_sites":            vacSites,
